@@ -1,12 +1,12 @@
 // C15 totality of the hand-written character scanners of CPPPreprocessor that
 // read from the input stream: scan_raw (C++11 raw strings), scan_quoted +
 // scan_escape_sequence, skip_c_comment / skip_cpp_comment, skip_digit_separator,
-// and of the static helper trim_blanks.  The bytes come through the istream
-// model (vs_istream_bytes), so the real get()/peek()/InputFile::get() run.
+// and of the static helper trim_blanks.  The real CPPPreprocessor::get()/peek()
+// run (unget slot, popping the input at EOF, synthesized newline); the byte
+// source underneath them is the harness buffer.
 // No oracle beyond "result no longer than the input": crashes, memory errors
 // and unbounded loops are the violations.
 #include "verif.h"
-#include "vstream.h"
 #include "cppPreprocessor.h"
 #include "c08_fixedvec.h"
 #include <string>
@@ -16,11 +16,17 @@
 #endif
 
 
-// raw zeroed storage: the scanners only touch _infile, _unget, _start_of_line, _verbose, the counters and
-// (comment scanners) _save_comments / _last_cpp_comment
+// The innermost input source.  CPPPreprocessor::get()/peek() (real) call InputFile::get()/peek(); those two are cut in
+// the catalogue and served from this byte buffer: end of input then pops and deletes the InputFile without a stream
+// object to destroy (destroying a std::istream is a virtual call that fans out over every stream class).  What is
+// lost is InputFile::get's own line/column bookkeeping and its skipping of '\r', which no scanner below depends on.
+static const char *g_bytes = 0;
+static int g_nbytes = 0, g_pos = 0;
+int CPPPreprocessor::InputFile::get() { if (g_pos < g_nbytes) return (unsigned char)g_bytes[g_pos++]; return EOF; }
+int CPPPreprocessor::InputFile::peek() { if (g_pos < g_nbytes) return (unsigned char)g_bytes[g_pos]; return EOF; }
+
 static CPPPreprocessor *make_pp(const char *bytes, int n) {
-  alignas(16) static unsigned char storage[sizeof(CPPPreprocessor)];
-  CPPPreprocessor *pp = reinterpret_cast<CPPPreprocessor *>(storage);
+  CPPPreprocessor *pp = new CPPPreprocessor;   // a real, typed object: the scanners follow _infile, a pointer stored in it
   pp->_verbose = 0;            // count diagnostics, do not print them
   pp->_warning_count = 0;
   pp->_error_count = 0;
@@ -32,7 +38,8 @@ static CPPPreprocessor *make_pp(const char *bytes, int n) {
   pp->_error_abort = false;
   pp->_state = CPPPreprocessor::S_normal;
   CPPPreprocessor::InputFile *f = new CPPPreprocessor::InputFile;
-  f->_in = vs_istream_bytes(bytes, (unsigned)n);
+  f->_in = nullptr;
+  g_bytes = bytes; g_nbytes = n; g_pos = 0;
   f->_parent = nullptr;
   f->_prev_last_c = '\0';
   pp->_infile = f;
